@@ -896,6 +896,8 @@ public:
 	void Insert(size_t index, size_t count, const Item& item)
 	{
 		size_t initCount = GetCount();
+		if (count > internal::UIntConst::maxSize - initCount)
+			throw std::bad_array_new_length();
 		size_t newCount = initCount + count;
 		size_t grow = (newCount > GetCapacity());
 		size_t itemIndex = pvIndexOf(item);
